@@ -277,6 +277,15 @@ def r5(ctx, r):
         els = _reach_until_ret(e_, hb[0].id)
         ok = any(x in drops for x in els) and any(x.kind == "stmt" and x.node.get("k") == "throw" and x.node.get("v") is None for x in els)
     r.expect(ok and bool(hb), e_, rcv[0] if rcv else None, "receive failure keeps the connection", "a failure while receiving/framing the response does not evict the connection (catch-all → dropConnection → rethrow expected)", okdesc="catch (...) → dropConnection → throw;")
+    # every clause of that try evicts: a more specific handler placed before the catch-all must not let its exception type skip the eviction
+    if rcv and rcv[0].try_id:
+        for b in e_.blocks.values():
+            if b.label and b.label.get("k") == "catch" and b.label.get("try") == rcv[0].try_id and b.label.get("t") != "...":
+                els = _reach_until_ret(e_, b.id)
+                r.instance()
+                r.expect(any(x in drops for x in els), e_, els[0] if els else None, "failure type skips the eviction: %s" % b.label.get("t"), "the receive/framing block has a `catch (%s)` clause that leaves without dropConnection: a connection that "
+                         "failed with that error stays cached (in Sync mode, with the peer's bytes still queued) and serves the next request to the same host — which reads the stale bytes as its own response" % b.label.get("t"),
+                         okdesc="catch (%s) evicts" % b.label.get("t"))
     # everything after the send that can throw is inside that try (or is the send-failure path)
     if ok:
         tid = rcv[0].try_id
